@@ -9,6 +9,7 @@ package main
 import (
 	"bytes"
 	"fmt"
+	"os"
 	"path"
 	"runtime"
 	"strings"
@@ -38,6 +39,7 @@ type sys struct {
 	idleTicks  int // ticks since the publisher last sent a byte
 	lastEvent  string
 	emptyTicks int
+	pushOrphan int
 	cw         map[int]int // consumer id -> writes seen on its connection
 	cage       map[int]int // consumer id -> ticks since the server last wrote to it
 }
@@ -52,6 +54,9 @@ type endSnap struct {
 }
 
 func newSys(o sw.SysOpts) *sys {
+	if on, _ := o.Conf["relay_push.enable"].(bool); on {
+		o.Init = func(x *sw.X) { x.W.EnableRelay(nil) } // gated: connection attempts stay pending until D:accept
+	}
 	return &sys{Sys: sw.NewSys(o, nil), cw: map[int]int{}, cage: map[int]int{}}
 }
 
@@ -72,6 +77,9 @@ func (s *sys) Enabled() []string {
 			ev = append(ev, k)
 		}
 	}
+	if len(s.X.W.PendingDials()) > 0 {
+		ev = append(ev, "D:accept")
+	}
 	return ev
 }
 
@@ -91,6 +99,10 @@ func (s *sys) Apply(ev string) error {
 			s.X.PubAlive = false
 			s.X.Pub = nil
 		}
+		s.X.PumpAll()
+	case "D:accept":
+		s.X.W.PendingDials()[0].Accept()
+		err = s.X.W.Settle()
 		s.X.PumpAll()
 	case "Dispose":
 		s.disposed = true
@@ -131,7 +143,9 @@ func (s *sys) Apply(ev string) error {
 	} else if ev == "T" && wasAlive {
 		s.idleTicks++
 	}
-	if ev == "T" && !s.X.PubAlive && len(s.Live()) == 0 {
+	// (a push connection attempt still in flight keeps the group until it ends - by its connect timeout
+	// in production, by D:accept here - so "eventually removed" is counted from then on)
+	if ev == "T" && !s.X.PubAlive && len(s.Live()) == 0 && len(s.X.W.PendingDials())+len(s.X.W.LiveDials()) == 0 {
 		s.emptyTicks++
 	} else if ev != "T" {
 		s.emptyTicks = 0
@@ -308,6 +322,21 @@ func (s *sys) Check() []seqx.Viol {
 			add("stat/ghost-publisher", "stat API lists publisher %s after the input ended", g.StatPub.SessionId)
 		}
 	}
+	// ---- relay push (an output too): ends with the publisher, never two connections per target
+	if confOn(s, "relay_push.enable") {
+		live := s.X.W.LiveDials()
+		if n := len(live) + len(s.X.W.PendingDials()); n > 1 {
+			add("push/two-connections", "%d relay push connections or attempts to the one target are open", n)
+		}
+		if !s.X.PubAlive && len(live) > 0 && s.lastEvent != "PubLeave" && s.lastEvent != "Kick" && s.lastEvent != "Dispose" {
+			s.pushOrphan++
+			if s.pushOrphan >= 2 {
+				add("push/not-finalised", "a relay push connection is still open %d events after its publisher has gone", s.pushOrphan)
+			}
+		} else if s.X.PubAlive || len(live) == 0 {
+			s.pushOrphan = 0
+		}
+	}
 	// ---- liveness in ticks
 	if s.idleTicks > 3 && s.X.PubAlive {
 		add("idle-input-not-disconnected", "the publisher has sent nothing for %d ticks (check interval 1) and is still attached", s.idleTicks)
@@ -378,6 +407,13 @@ func (s *sys) Fingerprint() string {
 	for _, c := range s.Live() {
 		fp += fmt.Sprintf(" age%d=%d", c.ID, minI(s.cage[c.ID], 3))
 	}
+	fp = strings.ReplaceAll(fp, fmt.Sprintf("w%d-", s.X.W.ID), "w-")
+	if confOn(s, "relay_push.enable") {
+		fp += fmt.Sprintf(" live=%d pending=%d orphan=%d", len(s.X.W.LiveDials()), len(s.X.W.PendingDials()), minI(s.pushOrphan, 2))
+		for _, d := range s.X.W.LiveDials() {
+			fp += fmt.Sprintf(" origin[%v started=%v err=%v]", d.Origin.Cmds, d.Origin.Started, d.Origin.DecErr)
+		}
+	}
 	return fmt.Sprintf("%s |ended=%d disposed=%v idle=%d empty=%d hooks=%d", fp, len(s.ended), s.disposed, minI(s.idleTicks, 4), minI(s.emptyTicks, 3), len(s.X.W.Hooks))
 }
 
@@ -403,6 +439,8 @@ func configs(r *vk.Run) []sw.SysOpts {
 	add("hls+hook", alpha, "hls.enable", true, "_hook", true)
 	add("flv+ts-record", alpha, "record.enable_flv", true, "record.enable_mpegts", true)
 	add("hook-only", alpha, "_hook", true)
+	add("hls-https-only", lean, "hls.enable", false, "hls.enable_https", true)
+	add("push+hook", lean, "relay_push.enable", true, "relay_push.addr_list", []interface{}{"$W-pushA:1935"}, "_hook", true)
 	if !r.Quick() {
 		add("hls-only", alpha, "hls.enable", true)
 		add("ts-record+hook", alpha, "record.enable_mpegts", true, "_hook", true)
@@ -517,6 +555,9 @@ func main() {
 	per := map[string]interface{}{}
 	for _, c := range configs(r) {
 		c := c
+		if only := os.Getenv("C16_ONLY"); only != "" && only != c.Name {
+			continue
+		}
 		st := seqx.Explore(seqx.Config{New: mk(c), MaxDepth: depth, Workers: 16, OutOfTime: r.OutOfTime,
 			OnViolation: func(tr []string, v seqx.Viol) {
 				r.Violation(v.Key, fmt.Sprintf("[%s] after %s: %s", c.Name, strings.Join(append(append([]string{}, c.Prefix...), tr...), " "), v.What), replay{c, tr})
